@@ -448,13 +448,18 @@ theorem handleModeLine_hs (p : Pre l m) (e : handleModeLine cfg m l = .ok (b, m'
     · split at e <;> (cases e; exact HS.ofW ((W.refl p.hi).upd rfl rfl rfl rfl rfl) rfl rfl)
     · cases e; exact HS.pass p
 
-theorem handleAdditionalCases_hs {to : State} (p : Pre l m) (hto : isMergeConflict to = false) (hpt : pend to = none)
-    (e : handleAdditionalCases cfg m l to = .ok (b, m')) : HS l m m' b := by
+/-- `handle_additional_cases` run on a machine `m` reached from `m0` by writes stamped with the current line -/
+theorem handleAdditionalCases_hs_from {m0 : M} {to : State} (c0 : W m0 m) (hto : isMergeConflict to = false)
+    (hpt : pend to = none) (e : handleAdditionalCases cfg m l to = .ok (b, m')) : HS l m0 m' b := by
   unfold handleAdditionalCases at e
-  have c : WC m { flushMP m with st := to } := (W.refl p.hi).flushMP.upd rfl rfl rfl rfl rfl
+  have c : WC m0 { flushMP m with st := to } := c0.flushMP.upd rfl rfl rfl rfl rfl
   split at e
   · cases e; exact HS.ofW (c.emit.writeGeneric cfg _ _ (by simp)).w (by simpa using hpt) (by simpa using hto)
   · cases e; exact HS.ofW c.w hpt hto
+
+theorem handleAdditionalCases_hs {to : State} (p : Pre l m) (hto : isMergeConflict to = false) (hpt : pend to = none)
+    (e : handleAdditionalCases cfg m l to = .ok (b, m')) : HS l m m' b :=
+  handleAdditionalCases_hs_from (W.refl p.hi) hto hpt e
 
 theorem pend_none_of_stray (p : Pre l m) (h : stray l = true) : pend m.st = none := by
   cases hq : pend m.st with
@@ -491,7 +496,7 @@ theorem handleSubmoduleLog_hs (p : Pre l m) (e : handleSubmoduleLog cfg m l = .o
   unfold handleSubmoduleLog at e
   split at e
   · cases e; exact HS.pass p
-  · exact handleAdditionalCases_hs p rfl rfl e
+  · exact handleAdditionalCases_hs_from (pendingDiffName_wc cfg (W.refl p.hi).flushMP).w rfl rfl e
 
 theorem handleSubmoduleShort_hs (p : Pre l m) (e : handleSubmoduleShort cfg m l = .ok (b, m')) : HS l m m' b := by
   unfold handleSubmoduleShort at e
